@@ -23,7 +23,7 @@ BOUNDS = {'quick': dict(name_len=1, s_len=1), 'thorough': dict(name_len=2, s_len
 ASSUMPTIONS = [
     'inductive step: table {o -> `oo x`} (+ optionally an older definition of the same name = redefinition) -> one `alias NAME=VALUE` line; NAME: name_len symbolic characters of [A-Za-z0-9_.-]; VALUE: templates {S | "S" S | S | S (pipe) | o S (other alias) | NAME -S (itself)} with S = s_len symbolic characters, written in single quotes, double quotes or bare',
     'S excludes both quote characters (the templates supply balanced quotes of the other kind), $ ` \\ ! ; & ( ) # and every white space except the blank (substitutions and list operators inside alias values are outside the property\'s alphabet; other white space only matters through trimming of the reference line); bare values additionally exclude blank | < > * ? [ ] { } ~ =',
-    'use shapes: `N a1`, `c0 | N a1`, `c0 N` (must stay), `c0 ; N a1`, `c0 && N`, `N | N`, `c0 a1 | c1 N`; the reference side is the same real code run on the line with the value text written in place of N, alias table empty (so replacement is applied once)',
+    'use shapes: `N a1`, `c0 | N a1`, `c0 N` (must stay), `c0 ; N a1`, `c0 && N`, `N | N`, `c0 a1 | c1 N`, `c0 "|" N` and `c0 \'|\' N a1` (a quoted bar is an argument: N must stay); the reference side is the same real code run on the line with the value text written in place of N, alias table empty (so replacement is applied once)',
     'values that tools::is_arithmetic classifies as arithmetic lines are excluded (C19)',
     'core::run_pipeline is a harness function (alias / unalias -> real builtins in capture mode; other lines recorded); glob answers empty; execution of the plan is C01/C02',
 ]
@@ -31,7 +31,7 @@ WS = "\t\n\r\x0b\x0c\x85\xa0\u1680\u2000\u2001\u2002\u2003\u2004\u2005\u2006\u20
 COMMON_EX = "'\"$`\\!;&()#" + WS
 Q_EX = {"'": COMMON_EX, '"': COMMON_EX, '': COMMON_EX + " |<>*?[]{}~="}
 VTS = ['S', 'dqS', 'pipe', 'other', 'self']
-USES = ['N a1', 'c0 | N a1', 'c0 N', 'c0 ; N a1', 'c0 && N', 'N | N', 'c0 a1 | c1 N']
+USES = ['N a1', 'c0 | N a1', 'c0 N', 'c0 ; N a1', 'c0 && N', 'N | N', 'c0 a1 | c1 N', 'c0 "|" N', "c0 '|' N a1"]
 HEADS = {'N a1': [0], 'c0 | N a1': [0], 'c0 N': [], 'c0 ; N a1': [0], 'c0 && N': [0], 'N | N': [0, 1], 'c0 a1 | c1 N': []}
 
 def instances(tier, seed):
@@ -42,7 +42,7 @@ def instances(tier, seed):
             if vt == 'dqS' and q == '"': vt_ = 'sqS'
             else: vt_ = vt
             for u in USES:
-                if tier == 'quick' and vt_ != 'S' and u not in ('N a1', 'c0 | N a1', 'c0 && N', 'c0 N'): continue
+                if tier == 'quick' and vt_ != 'S' and u not in ('N a1', 'c0 | N a1', 'c0 && N', 'c0 N', 'c0 "|" N'): continue
                 for redef in (False, True):
                     if redef and u != 'N a1': continue
                     out.append(dict(name='define/%s/%s/%s%s' % ({"'": 'sq', '"': 'dq', '': 'bare'}[q], vt_, u.replace(' ', '_'), '/redef' if redef else ''), kind='define', q=q, vt=vt_, use=u, redef=redef))
